@@ -163,6 +163,16 @@ def gen_trees(c):
             trees.append(('shapes', enc(Mb({b'k' * (i + 1): lf for i in range(n)}))))
     # keys whose order depends on unsigned comparison and on the prefix rule
     trees.append(('shapes', enc(Mb({b'': Nn(b'0'), b'a': Nn(b'1'), b'ab': Nn(b'2'), b'\x80': Nn(b'3'), b'\xff': Nn(b'4'), b'B': Nn(b'5')}))))
+    # systematic: text that LOOKS like a JSON escape sequence once it is escaped -- a literal backslash (or quote) followed by
+    # an escape letter, by 'u' and hex digits, by another backslash ...: every word of length <= 3 over these characters,
+    # in front of "0041" (so that \uXXXX shapes arise), as string, as key, and at the end of a string
+    import itertools
+    esc_alpha = [b'\\', b'"', b'u', b'n', b'/', b'b']
+    for k in (1, 2, 3):
+        for w in itertools.product(esc_alpha, repeat=k):
+            ww = b''.join(w)
+            trees.append(('escape-like', enc(A(S(ww + b'0041'), S(b'x' + ww)))))
+            trees.append(('escape-like', enc(Mb({ww + b'00e9z': S(ww)}))))
     nsys = len(trees) - ncorpus
     rng = c.rng
     nrand = 4000 if c.tier == 'quick' else 60000
